@@ -16,8 +16,8 @@ from . import core, loader, solve
 from .solve import Obligation, decided
 
 HERE = os.path.dirname(os.path.dirname(os.path.abspath(__file__)))
-EVID = os.path.join(HERE, 'evidence')
-REPLAYS = os.path.join(HERE, 'replays')
+EVID = os.environ.get('VF_EVIDENCE_DIR') or os.path.join(HERE, 'evidence')
+REPLAYS = os.environ.get('VF_REPLAY_DIR') or os.path.join(HERE, 'replays')
 KNOWN = os.path.join(HERE, 'known_findings.json')
 
 EXIT_OK, EXIT_VIOLATION, EXIT_UNDECIDED, EXIT_ENGINE = 0, 1, 2, 3
